@@ -22,7 +22,9 @@ EXPLANATION = (
     'SQL, new-model SQL, deferred SQL, purge SQL) are the kinds the preview '
     'feeds to run_sql(capture=True), and both evolution-SQL sites take it '
     'from generate_mutations_info(...)[\'sql\']; '
-    'R-C14.2 also: the capture path\'s condition on params agrees with what cursor.execute does (or _prepare_sql normalises () to None); R-C14.4 preview and execution read the same SQL variable (known finding: task.sql vs batches).')
+    'R-C14.2 also: the capture path\'s condition on params agrees with what cursor.execute does (or _prepare_sql normalises () to None); R-C14.4 preview and execution read the same SQL variable (known finding: task.sql vs batches).'
+    ' '
+    'R-C14.5 inside the per-task loop of an evolutions batch, whether task.execute(sql=...) runs depends only on that SQL.')
 NOT_DECIDED = (
     'Statement-by-statement equality of preview and execution for every '
     'upgrade, and byte-identical output across hash seeds (needs execution '
@@ -467,7 +469,64 @@ def r3_preview_classes(ctx):
                     key='preview-omits:new_models_sql')
 
 
+def r5_task_sql_execution_depends_only_on_sql(ctx, rule_id='R-C14.5'):
+    """The preview prints a task's SQL whenever there is some.  The execute
+    loop of an evolutions batch runs `task.execute(sql=<batch SQL of the
+    task>)`; inside that per-task loop, whether the call happens may depend
+    only on that SQL being non-empty.  Any further condition (e.g. "the task
+    has recorded evolutions in this batch") makes a class of tasks - hinted
+    ones have no recorded evolutions - print SQL that is never run."""
+    ctx.rule(rule_id)
+    p = ctx.program
+    f = p.func('evolve.evolve_app_task', 'EvolveAppTask.execute_tasks')
+    g = ctx.cfg(f)
+    rd = ReachingDefs(g, f.params)
+    n = 0
+    loops = [l for l in walk_no_nested(f.node) if isinstance(l, ast.For)]
+    for node in g.nodes:
+        for c in node.calls():
+            sql = kwarg(c, 'sql')
+            if call_name(c) != 'execute' or sql is None or \
+                    kwarg(c, 'sql_executor') is None:
+                continue
+            n += 1
+            inner = None
+            for l in loops:
+                if any(x is c for x in ast.walk(l)):
+                    if inner is None or any(x is l for x in ast.walk(inner)):
+                        inner = l
+            if inner is None:
+                continue
+            sql_names = {x.id for x in ast.walk(sql)
+                         if isinstance(x, ast.Name)}
+            in_loop = {id(x) for st in inner.body for x in ast.walk(st)}
+            bad = []
+            for t in g.nodes:
+                if t.kind not in ('test', 'operand') or t.ast is None or \
+                        id(t.ast) not in in_loop:
+                    continue
+                if not (g.guarded_by(node, t, 'T') or
+                        g.guarded_by(node, t, 'F')):
+                    continue
+                names = {x.id for x in ast.walk(t.ast)
+                         if isinstance(x, ast.Name)}
+                if not names <= sql_names | {'len'}:
+                    bad.append(' '.join(unparse(t.ast).split()))
+            if bad:
+                ctx.finding(f, c, 'inside the per-task loop, whether the '
+                            'task\'s batch SQL (%s) is executed also depends '
+                            'on "%s": the preview prints that SQL, the run '
+                            'skips it' % (unparse(sql),
+                                          '; '.join(sorted(set(bad)))),
+                            key='task-sql-execution-conditional')
+            else:
+                ctx.ok(f, 'a task\'s batch SQL is executed whenever it is '
+                       'non-empty', c)
+    ctx.floor('task.execute(sql=...) calls in execute_tasks', n, 1)
+
+
 def run(ctx):
+    r5_task_sql_execution_depends_only_on_sql(ctx)
     r1_determinism(ctx)
     r2_capture_execute(ctx)
     r2b_param_condition_agrees(ctx)
